@@ -1839,6 +1839,17 @@ class _CallMixin:
     def call_unit(self, file, qual, selfv, pos, kw, st, node):
         c = self.reg.lookup(file, qual)
         if c is None:
+            # a helper of a mechanically generated (cxx2py) module that has no contract of its own is verified as part of
+            # its callers: inlining its real body is sound (recursion is cut by the inline depth limit)
+            if file.startswith("@gen/"):
+                try:
+                    fn0 = self.find_def(file, qual)
+                except (KeyError, AttributeError):
+                    fn0 = None
+                if fn0 is not None:
+                    from pyvc.contracts import Contract
+                    yield from self.call_inline(Contract(qual, file, inline=True), fn0, file, qual, selfv, pos, kw, st, node)
+                    return
             raise ToolLimit(f"call to {qual} which has no contract")
         fn = None if c.extern else self.find_def(file, qual)
         if c.extern:
